@@ -30,7 +30,7 @@ LEVEL_TEXT = ("Real runs of lengths 1-12 with output periods 1-4 and all plug-in
               "time, release, forcing, [output iff step >= 0], tracker, ibm - each exactly once - and close exactly once per module that has one.")
 LEVEL_NOTE = "The two traces are recorded by different mechanisms (wrappers vs interpreter events) and must agree call for call; a run whose tracer saw zero anchored calls is inconclusive."
 RULE = ("case = (variant, steps, period, plug-in spelling, warm/cold, kill schedule). Non-trivial: at least 2 steps and a release after the first step or an IBM kill; distinct by parameters.")
-MANDATORY = ["grid_module_taken_from_the_forcing_section", "two_models_alive_and_stepped_in_turn", "records_compared_with_the_solo_run", "plugin_file_name_with_a_dot", "warm_start_record_times_checked", "v1_user_gridforce_module", "v1_user_module_name_ending_in_ROMS", "no_particles_during_first_steps", "stock_scalar_values_checked", "plugin_section_with_module_only", "steps_parsed", "traces_agree", "plugin_relative", "plugin_absolute", "plugin_with_py", "plugin_subdir", "plugin_module_name", "decoy_present", "warm_start_runs",
+MANDATORY = ["ibm_removal_followed_warm", "ibm_removal_followed_cold", "v1_ibm_section_with_module_key", "v1_ibm_section_with_ibm_module_key", "grid_module_taken_from_the_forcing_section", "two_models_alive_and_stepped_in_turn", "records_compared_with_the_solo_run", "plugin_file_name_with_a_dot", "warm_start_record_times_checked", "v1_user_gridforce_module", "v1_user_module_name_ending_in_ROMS", "no_particles_during_first_steps", "stock_scalar_values_checked", "plugin_section_with_module_only", "steps_parsed", "traces_agree", "plugin_relative", "plugin_absolute", "plugin_with_py", "plugin_subdir", "plugin_module_name", "decoy_present", "warm_start_runs",
              "output_plugin_runs", "forcing_plugin_runs", "coded_scalar_values_checked", "ibm_positions_checked", "kills_checked", "ibm_kills_everybody_present", "late_release_in_record", "close_calls_checked"]
 ASSUMPTIONS = ["state and time have no close by design; close is required exactly once only for modules that define one"]
 MIN_CASES_PER_PROCESS = 4  # several runs share one interpreter: state leaking between runs (module caches, shared defaults) becomes observable
@@ -154,6 +154,9 @@ def run_v1_gridforce(case: dict[str, Any], wd: Path) -> dict[str, Any]:
               output_variables=dict(outper=[dt, "s"], format="NETCDF4", instance=["pid", "X", "Y", "Z"], particle=["release_time"],
                                     pid=dict(ncformat="i4", long_name="pid"), X=dict(ncformat="f8", long_name="X"), Y=dict(ncformat="f8", long_name="Y"),
                                     Z=dict(ncformat="f8", long_name="Z"), release_time=dict(ncformat="f8", long_name="release time", units="seconds since reference_time")))
+    # the user's IBM, named in the version-1 file by `module` (as examples/lakselus/ladim1.yaml does) or by `ibm_module`
+    ibm_key = ["module", "ibm_module"][case["idx"] % 2]
+    v1["ibm"] = {ibm_key: C.REC_IBM, "log": False}
     cf = wd / "ladim1.yaml"
     write_yaml(v1, cf)
     rec.reset()
@@ -167,7 +170,7 @@ def run_v1_gridforce(case: dict[str, Any], wd: Path) -> dict[str, Any]:
     rec.reset()
     V: list = []
     desc = dict(kind="v1_gridforce", module=module, nsteps=ns)
-    sit = {"v1_user_gridforce_module": 1, "v1_user_module_name_ending_in_ROMS": int(name.endswith("ROMS"))}
+    sit = {"v1_user_gridforce_module": 1, "v1_user_module_name_ending_in_ROMS": int(name.endswith("ROMS")), f"v1_ibm_section_with_{ibm_key}_key": 1}
     if not res.ok:
         V.append(C.viol(f"version-1 configuration with the user's gridforce module {module!r} did not run: {res.exc}", tb=res.tb[-1000:], **desc))
     else:
@@ -175,6 +178,11 @@ def run_v1_gridforce(case: dict[str, Any], wd: Path) -> dict[str, Any]:
         if ("user.grid.init",) not in calls or ("user.forcing.init",) not in calls or nupd != ns:
             V.append(C.viol(f"version-1 configuration names the user's module {module!r} for grid and forcing, but its Grid/Forcing did not run "
                             f"(grid init {('user.grid.init',) in calls}, forcing init {('user.forcing.init',) in calls}, {nupd} forcing updates in {ns} steps)", **desc))
+    if res.ok:
+        nib = sum(1 for c in calls if c[0] == "ibm.update")
+        if ("ibm.init",) not in calls or nib != ns or calls.count(("ibm.close",)) != 1:
+            V.append(C.viol(f"version-1 configuration names the user's IBM with the key {ibm_key!r}: init {('ibm.init',) in calls}, {nib} update calls in {ns} steps, "
+                            f"{calls.count(('ibm.close',))} close calls (the user's module must run, be updated once per step and closed once)", **desc))
     return C.result(V, sit, {}, nontrivial=True, key=str(desc), sample=desc)
 
 
@@ -308,12 +316,14 @@ def run_case(case: dict[str, Any], wd: Path) -> dict[str, Any]:
         victims = [0, 1, 2] + ([3, 4] if late and late <= kill_step else [])
         sit["ibm_kills_everybody_present"] = 1
     kills = {str(kill_step): victims} if kill_step is not None else {}
+    # warm cases: the IBM also removes pid 2 in the step that begins at the restart record (step P) - the step a warm start repeats before its time loop
+    tkill = {str(tadd(start, P * dt)): [2]} if (case["warm"] and case["idx"] % 3 and not late_only and P < ns) else {}
     coef = dict(a=3.0, b=0.25, c=-0.5, e=1.0e-3)
     sp_u = 0.2 * 1000.0 / dt
     run: dict[str, Any] = dict(start=start, stop=str(tadd(start, ns * dt)), dt=dt, advection="EF",
                                release=dict(columns=["release_time", "X", "Y", "Z"], rows=rows, header=True),
                                state=dict(instance_variables=dict(temp="float"), default_values=dict(temp=0.0)),
-                               ibm=dict(module=modspec["ibm"], kill=kills, log=True) if case["idx"] % 3 else dict(module=modspec["ibm"]),  # every third case: `module:` only
+                               ibm=dict(module=modspec["ibm"], kill=kills, kill_time=tkill, log=True) if case["idx"] % 3 else dict(module=modspec["ibm"]),  # every third case: `module:` only
                                output=dict(period=P * dt, instance=dict(pid="i4", X="f8", Y="f8", Z="f8", temp="f8"), numrec=2 if case["warm"] else 0))
     world = None
     if variant == "stock":
@@ -510,8 +520,19 @@ def run_case(case: dict[str, Any], wd: Path) -> dict[str, Any]:
         if label == "cold" and late:
             fu = [c for c in calls if c[0] == "forcing.update" and len(c) >= 3 and c[1] == late]
             gone_before = len([v for v in victims if v < 3]) if (kill_step is not None and kill_step < late) else 0
+            if tkill and P < late and not (gone_before and 2 in victims):
+                gone_before += 1
             if fu and fu[0][2] < early_n + 2 - gone_before:
                 V.append(C.viol(f"forcing at step {late} evaluated for {fu[0][2]} particles: the particles released in this step were not included", **d2))
+        # a particle the IBM removed is gone from the state by the IBM's next call (cold and warm: also when the removal happens in the step a warm start repeats)
+        for tk_, vs_ in tkill.items():
+            for sn in [q for q in plog if "alive" in q and np.datetime64(q["time"], "s") > np.datetime64(tk_, "s")]:
+                sit[f"ibm_removal_followed_{label}"] = sit.get(f"ibm_removal_followed_{label}", 0) + 1
+                back = [int(v) for v in vs_ if int(v) in set(int(x) for x in sn["pid"])]
+                if back and len(V) < 3:
+                    V.append(C.viol(f"{label} run: the IBM removed pid {back} in its call at {tk_}; at its call at {sn['time']} the particle is still in the state "
+                                    f"(alive flags {[bool(a) for a in sn['alive']]}): it was moved and handed to the IBM once more", **d2))
+                    break
         # IBM sees every living pid once per step
         steps_seen = [s["step"] for s in plog if "alive" in s]
         if label == "cold" and steps_seen != list(range(ns)):
